@@ -968,10 +968,13 @@ Section Main.
     assert (Hcanon : forall a, In a args -> canon a = a) by (apply map_id_In; exact Hcan).
     unfold field_ir_of, resolve_field_type_path in Hfi. apply bind_ok in Hfi as (p & Hp & Hfi).
     inversion Hfi; subst fi. unfold erase_fi, normal_field. cbn [fi_path fi_compact fi_boxed].
-    assert (Hboxed : is_boxed f = has_box (sf_ty sf) && sf_type_name sf).
-    { unfold is_boxed. rewrite Htn. unfold box_names_okb in Hbox. rewrite forallb_forall in Hbox.
-      specialize (Hbox sf Hin). apply eqb_prop in Hbox. fold pnames in Hbox.
-      destruct (sf_type_name sf); [rewrite Hbox, andb_true_r; reflexivity|rewrite andb_false_r; reflexivity]. }
+    assert (Hboxed : is_boxed_gen f = has_box (sf_ty sf) && sf_type_name sf).
+    { unfold is_boxed_gen. rewrite Htn. unfold box_names_okb in Hbox. rewrite forallb_forall in Hbox.
+      specialize (Hbox sf Hin). cbv zeta in Hbox. apply andb_prop in Hbox as [Hbox Harc].
+      apply andb_prop in Hbox as [Hbox Hrc]. apply eqb_prop in Hbox. apply negb_true_iff in Hrc, Harc.
+      fold pnames in Hbox, Hrc, Harc.
+      destruct (sf_type_name sf);
+        [rewrite Hbox, Hrc, Harc, !orb_false_r, andb_true_r; reflexivity|rewrite andb_false_r; reflexivity]. }
     rewrite Hboxed.
     destruct (sf_compact_attr sf) eqn:Eca.
     - (* #[codec(compact)]: the field's id is Compact<closed field type> *)
